@@ -1186,6 +1186,7 @@ func runL2(args []string) {
 				Holds: map[string]bool{"C01": false}})
 		}
 	}
+	hyp["concurrent-growth-calls"] = concurrentGrowth(rep)
 	hyp["concurrent-first-use-types"] = concurrentFirstUse(rep, cl, r.Fork())
 	hyp["first-use-order-pairs"] = firstUseOrder(rep, r.Fork())
 	for i := 0; i < *n; i++ {
